@@ -229,6 +229,14 @@ func checkCase(c Case) evid.Outcome {
 		if mustPanic(func() { a.f.URLPath("no-such-route", "a", "1") }) == nil {
 			return evid.Fail("unknown-name", "URLPath of an unknown name did not panic")
 		}
+		// the same through a request's context: Recovery is not installed, the
+		// panic comes out of ServeHTTP
+		a.probe = func(ctx flamego.Context) { ctx.URLPath("no-such-route", "a", "1") }
+		escaped := mustPanic(func() { a.f.ServeHTTP(httptest.NewRecorder(), rt.NewRequest("GET", "/zz-probe", nil)) })
+		a.probe = nil
+		if escaped == nil {
+			return evid.Fail("unknown-name", "Context.URLPath of an unknown name did not panic")
+		}
 		out.Classes = append(out.Classes, "bad:unknown-name")
 	}
 
@@ -260,8 +268,12 @@ func checkCase(c Case) evid.Outcome {
 		shared := append(make([]string, 0, len(orig)+6), orig...)
 		first := a.f.URLPath(b.Name, shared...)
 		second := a.f.URLPath(b.Name, shared...)
-		if first != second || fmt.Sprintf("%q", shared) != fmt.Sprintf("%q", orig) {
+		if first != second {
 			return evid.Fail("pairs-mutated", "URLPath(%q, pairs...) twice with the same slice: %q then %q; the slice was %q and is now %q", b.Name, first, second, orig, shared)
+		}
+		if fmt.Sprintf("%q", shared) != fmt.Sprintf("%q", orig) {
+			// (reordered in place, say: every URL is right all the same)
+			out.Classes = append(out.Classes, "pairs-slice-changed")
 		}
 		// through the context
 		var viaCtx string
@@ -476,7 +488,32 @@ func genCase(t *rapid.T) Case {
 			b.Pairs = append(b.Pairs, [2]string{bn, v})
 		}
 		if rapid.IntRange(0, 3).Draw(t, "unknown") == 0 {
-			b.Pairs = append(b.Pairs, [2]string{"nosuchbind", "{a}"})
+			// a name the route does not bind: far from every bind, one character
+			// away from one, or a literal of the route
+			un := "nosuchbind"
+			switch k := rapid.IntRange(0, 3).Draw(t, "unk"); {
+			case k == 1 && len(binds) > 0:
+				bn := binds[rapid.IntRange(0, len(binds)-1).Draw(t, "unb")]
+				un = []string{bn + "2", bn[:len(bn)-1], "x" + bn, strings.ToUpper(bn)}[rapid.IntRange(0, 3).Draw(t, "unv")]
+			case k == 2:
+				for _, sg := range d.Segs {
+					for _, e := range sg.Elems {
+						if e.Lit != "" {
+							un = e.Lit
+						}
+					}
+				}
+			}
+			taken := un == "" || un == "route"
+			for _, bn := range binds {
+				if bn == un {
+					taken = true
+				}
+			}
+			if taken {
+				un = "nosuchbind"
+			}
+			b.Pairs = append(b.Pairs, [2]string{un, []string{"{a}", "zz", "{" + un + "}"}[rapid.IntRange(0, 2).Draw(t, "unval")]})
 		}
 		// supplying order is part of the input
 		b.Pairs = rapid.Permutation(b.Pairs).Draw(t, "porder")
